@@ -36,6 +36,7 @@ func libParse(rb *avro.ReadBuf, s string) (t time.Time, err error, panicked any)
 }
 
 var c18rb *avro.ReadBuf
+var c18first bool
 
 func two(n int) string { return fmt.Sprintf("%02d", n) }
 
@@ -471,6 +472,39 @@ func runC18(c *core.Ctx, i int) {
 			} else {
 				time.Local = loc
 				c.Count("local-zone."+tz, 1)
+			}
+		}
+	}
+	if !c18first {
+		// the very first parses of this (fresh) process: numeric zero offsets, then the edges of the year range with
+		// offsets of both signs (the local fields are in range; the UTC instant may not be)
+		c18first = true
+		var edge []string
+		for _, off := range []string{"+00:00", "-00:00", "+00:01", "-00:01", "+00:30", "-00:30", "+01:00", "-01:00", "+05:00", "-05:00", "+14:00", "-14:00", "+23:59", "-23:59", "Z"} {
+			for _, lt := range []string{"0000-01-01T00:00:00", "0000-01-01T00:29:59.5", "0000-01-01T23:59:59", "0000-12-31T23:59:59", "9999-12-31T23:59:59.999999999", "9999-12-31T23:30:00", "9999-12-31T00:00:00", "9999-01-01T00:00:00", "0001-01-01T00:00:00", "1970-01-01T00:00:00", "1969-12-31T23:59:59.999999999"} {
+				edge = append(edge, lt+off)
+			}
+		}
+		for _, s := range edge {
+			c.Journal(c.CurCase(), "edge s="+s)
+			want, err := time.Parse(time.RFC3339, s)
+			got, lerr, p := libParse(c18rb, s)
+			c.Eval(1)
+			c.Count("edge-strings", 1)
+			if p != nil {
+				c.Violate("panic", fmt.Sprintf("parsing %q (among the first parses of the process) panicked: %v", s, p), map[string]any{"s": s})
+				return
+			}
+			if err != nil {
+				continue
+			}
+			if lerr != nil {
+				c.Violate("rejects-valid", fmt.Sprintf("%q is accepted by time.Parse(RFC3339) but the library fails: %v", s, lerr), map[string]any{"s": s})
+				return
+			}
+			if !sameTime(got, want) {
+				c.Violate("instant", fmt.Sprintf("%q: library %s, standard library %s", s, got.Format(time.RFC3339Nano), want.Format(time.RFC3339Nano)), map[string]any{"s": s})
+				return
 			}
 		}
 	}
